@@ -129,6 +129,25 @@ func runC11(c *Ctx) {
 			streams = append(streams, ch)
 		}
 	}
+	// messages whose last field occupies no bytes (a string field of size 0):
+	// the message is complete when its last byte has been read, whatever the
+	// reader does next
+	for k := 0; k < 2; k++ {
+		arch := byte(k)
+		s := newStream(12, false)
+		s.FileId(0, arch, 4)
+		s.Def(1, arch, 23, []FieldDef{{253, 4, 0x86}, {2, 2, 0x84}, {27, 0, 7}}, nil)
+		s.Def(2, arch, 20, []FieldDef{{253, 4, 0x86}, {3, 1, 2}}, nil)
+		for r := 0; r < 3; r++ {
+			s.Data(1, append(wire(u32le(0x39100000+uint32(r)), arch), wire(u16le(uint16(1+r)), arch)...))
+			s.Data(2, append(wire(u32le(0x39100010+uint32(r)), arch), byte(100+r)))
+		}
+		s.Def(3, arch, 0xFF10, []FieldDef{{1, 1, 2}, {9, 0, 7}}, nil)
+		s.Data(3, []byte{5})
+		s.Data(1, append(wire(u32le(0x39100020), arch), wire(u16le(9), arch)...))
+		streams = append([][]byte{s.Bytes()}, streams...)
+		pool = append([][]byte{s.Bytes()}, pool...)
+	}
 	var calls []*Call
 	id := 0
 	noffsets := 0
